@@ -1089,6 +1089,118 @@ func c18r12(rc *core.RC) {
 	}
 }
 
+// ---- C05.R15 a closing bracket is looked for behind white space (decoder, buffer mode) ----
+
+// The same obligation as C18.R12, for the buffer-mode container decoders (map, slice, array, struct: Decode and
+// DecodePath): every test of the byte under the cursor against '}' or ']' reads a cursor that skipWhiteSpace set last.
+// A test directly behind the step over the opening bracket takes a blank for a member: `{ }` is refused by Unmarshal
+// and accepted by Valid and by the stream decoder.
+func c05r15(rc *core.RC) {
+	p := rc.P
+	n := 0
+	for _, fd := range p.Funcs("decoder") {
+		if fd.Body == nil || fd.Recv == nil {
+			continue
+		}
+		if fd.Name.Name != "Decode" && fd.Name.Name != "DecodePath" {
+			continue
+		}
+		info := p.Info(fd)
+		fn := p.FuncName(fd)
+		rc.Touch(fn)
+		isCursor := func(e ast.Expr) bool {
+			_, ok := core.Unparen(e).(*ast.Ident)
+			return ok && isCursorExpr(e)
+		}
+		readsCursorByte := func(e ast.Expr) bool {
+			if c, ok := core.Unparen(e).(*ast.CallExpr); ok && core.CalleeName(info, c) == "decoder.char" && len(c.Args) == 2 {
+				return isCursor(c.Args[1])
+			}
+			ix, ok := core.Unparen(e).(*ast.IndexExpr)
+			return ok && isCursor(ix.Index)
+		}
+		structural := func(e ast.Expr) bool {
+			v, ok := core.ConstInt(info, e)
+			return ok && (v == '}' || v == ']')
+		}
+		k := 0
+		var visit func(list []ast.Stmt, lastSet string)
+		visit = func(list []ast.Stmt, lastSet string) {
+			for _, st := range list {
+				// tests in this statement
+				var tests []ast.Node
+				switch x := st.(type) {
+				case *ast.IfStmt:
+					if be, ok := core.Unparen(x.Cond).(*ast.BinaryExpr); ok && (be.Op == token.EQL || be.Op == token.NEQ) && readsCursorByte(be.X) && structural(be.Y) {
+						tests = append(tests, be)
+					}
+				case *ast.SwitchStmt:
+					if x.Tag != nil && readsCursorByte(x.Tag) {
+						for _, c := range x.Body.List {
+							for _, l := range c.(*ast.CaseClause).List {
+								if structural(l) {
+									tests = append(tests, x.Tag)
+								}
+							}
+						}
+						if len(tests) > 1 {
+							tests = tests[:1]
+						}
+					}
+				}
+				for _, tst := range tests {
+					n++
+					k++
+					key := fmt.Sprintf("%s/token-test#%d behind-white-space", fn, k)
+					rc.Check(lastSet == "skipWhiteSpace", key, tst.Pos(), "the byte compared with a structural token (%s) is the one skipWhiteSpace stopped at (the cursor was last set by %s): a test directly behind an increment takes white space inside an empty container for an element and fails on `{ }` / `[\\n]`", core.Src(p.Fset, tst), lastSet)
+				}
+				// how this statement leaves the cursor
+				switch x := st.(type) {
+				case *ast.AssignStmt:
+					for i, l := range x.Lhs {
+						if !isCursor(l) {
+							continue
+						}
+						lastSet = "an assignment"
+						rhs := x.Rhs[0]
+						if len(x.Rhs) == len(x.Lhs) {
+							rhs = x.Rhs[i]
+						}
+						if c, ok := core.Unparen(rhs).(*ast.CallExpr); ok {
+							lastSet = "a call of " + core.CalleeName(info, c)
+							if strings.HasSuffix(core.CalleeName(info, c), "skipWhiteSpace") {
+								lastSet = "skipWhiteSpace"
+							}
+						}
+					}
+				case *ast.IncDecStmt:
+					if isCursor(x.X) {
+						lastSet = "cursor++"
+					}
+				case *ast.IfStmt:
+					visit(x.Body.List, lastSet)
+					if e, ok := x.Else.(*ast.BlockStmt); ok {
+						visit(e.List, lastSet)
+					}
+				case *ast.ForStmt:
+					// the loop body starts with whatever the end of the previous iteration left: unknown
+					visit(x.Body.List, "the previous iteration")
+				case *ast.SwitchStmt:
+					for _, c := range x.Body.List {
+						visit(c.(*ast.CaseClause).Body, lastSet)
+					}
+				case *ast.BlockStmt:
+					visit(x.List, lastSet)
+				}
+			}
+		}
+		visit(fd.Body.List, "the caller")
+	}
+	if n < 8 {
+		rc.Unknown("decoder/container-walkers", token.NoPos, "found %d tests of a closing bracket in the buffer-mode Decode/DecodePath methods (confirmed: 12)", n)
+	}
+}
+
 // c18r8source: the bytes the trailing loop of Valid examines are the input behind the value, data[InputOffset():].
 // What the decoder happens to hold (Decoder.Buffered) ends at the read window and at the first NUL: bytes not read
 // yet and bytes behind a NUL would never be looked at.
